@@ -16,7 +16,7 @@ def main(tier, seed, replay=None):
     for i in range(n):
         names, ops, info = c16.gen_model(rng, P=rng.randint(1, 4))
         P, N = info["P"], info["N"]
-        mis = rng.choice(["len_fun", "len_deriv", "len_inv", "index", "count", "mixed", "cancel", "cancel"])
+        mis = rng.choice(["len_fun", "len_deriv", "len_inv", "index", "count", "mixed", "cancel", "cancel", "len_when", "len_when"])
         kinds[mis] = kinds.get(mis, 0) + 1
         wrong = rng.choice([0, N - 1, N + 1, 2 * N])
         if mis in ("len_fun", "mixed"):
@@ -29,6 +29,13 @@ def main(tier, seed, replay=None):
             j = rng.choice(js)
             o = ops[j]
             ops[j] = (o[0], o[1], o[2], o[3], wrong)
+        if mis == "len_when":
+            # a function / derivative whose output length depends on the PARAMETER VALUES: right at the initial parameters (and for
+            # every evaluation there), wrong once its first argument is >= 200 — the check has to be made on every evaluation
+            js = [j for j, o in enumerate(ops) if o[0] in ("function", "partial_deriv")]
+            for j in rng.sample(js, min(len(js), rng.randint(1, 2))):
+                o = ops[j]
+                ops[j] = (o[0], o[1], o[2], o[3], None, (200, wrong))
         if mis == "cancel":
             # two positions of the same evaluation whose wrong lengths add up to the right total (N - d and N + d, or 0 and 2N):
             # the shape contract is per column
@@ -76,6 +83,10 @@ def main(tier, seed, replay=None):
                 k = rng.choice([P, P + 1, P + 3, "max"]) if mis in ("index", "mixed") and rng.random() < 0.6 else rng.randrange(P)
                 calls.append(("deriv", k))
         calls += [("params",), ("eval",)] + [("deriv", k) for k in range(P)]
+        if mis == "len_when":
+            calls = [("eval",), ("eval",)] + [("deriv", k) for k in range(P)] + calls
+            calls += [("set", [rng.randint(200, 299) for _ in range(P)]), ("params",), ("eval",)] + [("deriv", k) for k in range(P)]
+            calls += [("eval",), ("set", [rng.randint(11, 99) for _ in range(P)]), ("eval",)] + [("deriv", k) for k in range(P)]
         if i % 8 == 5:
             # a wrong-length initial guess supplied through the builder at every possible position (in particular directly after
             # a function / partial_deriv call): the builder must reject it, so no mis-sized model can come into existence
